@@ -60,6 +60,10 @@ def check_pair(item):
         a, b, b2 = a[0], a[1], b
         stmts = (("case", False, ((None, (L("p"),), (("set", "n", ("num", 1)),)), (None, (L("q"),), ()))), ("match", a),
                  ("if", ((("bin", "==", ("var", "n"), ("num", 1)), (("match", b),)),), (("match", b2),)))
+    elif kind == "loopif":
+        # a loop left by a conditional break: what follows the loop follows A directly when the condition holds
+        stmts = (("case", False, ((None, (L("p"),), (("set", "n", ("num", 1)),)), (None, (L("q"),), ()))),
+                 ("loop", None, (("match", a), ("if", ((("bin", "==", ("var", "n"), ("num", 1)), (("break", None),)),), (("match", L("c")),)))), ("match", b))
     src = U.source(stmts)
     res = dict(src=src, status=None, truth=None, witness=None, kind=kind, ref_witness=None)
     acc = loader.compile_source(src, [], codegen=False)
@@ -68,6 +72,8 @@ def check_pair(item):
     ra, rb = U.m_core(a), U.m_core(b)
     if kind == "if":
         w = ambiguous_seq(ra, rb, reps) or ambiguous_seq(ra, U.m_core(b2), reps)
+    elif kind == "loopif":
+        w = ambiguous_seq(ra, rb, reps) or ambiguous_seq(ra, U.m_core(L("c")), reps)
     elif kind == "seq":
         w = ambiguous_seq(ra, rb, reps)
         # an empty-matching A or B makes boundaries undecidable only if it overlaps; covered by the same test
@@ -183,7 +189,7 @@ def run(tier, seed):
                     "over all reachable REF x machine states; distinct = programs for which the compiler verdict and the ground truth were both established")
     items = []
     for a, b in itertools.product(MENU, MENU):
-        for kind in ("seq", "opt", "optafter", "loop"):
+        for kind in ("seq", "opt", "optafter", "loop", "loopif"):
             items.append(("pair", (kind, a, b)))
     sub = MENU[:3] + MENU[4:5] + MENU[8:11]
     for a in sub:
